@@ -15,7 +15,8 @@ RULE = ("all sets and frozensets with <= K elements over a 9-10 element alphabet
         "against each other, incomparable frozensets, float) x every insertion order x construction method (display, incremental "
         "add, from list, union) plus dict / list / tuple values holding them; each PYTHONHASHSEED x {black, black not importable, "
         "format-command} is one cold `python -m pytest --inline-snapshot=create` process over the whole batch; non-trivial = a "
-        "value with >= 2 elements whose text was compared across >= 2 seeds and >= 2 insertion orders; distinct = (value, order, method)")
+        "value with >= 2 elements whose text was compared across >= 2 seeds and >= 2 insertion orders; distinct = (value, order, method)"
+        "; defaultdict snapshots against every insertion order; <= 3000 sites per cold process")
 ASSUMPTIONS = ["for dicts only the construction method is varied: insertion order is observable through the value",
                "black absence is simulated by a project-local black.py that raises ImportError in the cold interpreter"]
 TASK_TIMEOUT = 9000
